@@ -58,6 +58,7 @@ def corpus():
     c.append(F("f16", "#[TRACE]\npub fn f16(x: u32) -> u32 { HERE rt::log(\"outer\"); let a = f2(x); let b = f6(x); rt::log(\"done\"); a.wrapping_add(b) }",
                [(str(x), 'format!("{:?}", M::f16(%du32))' % x) for x in (2, 50)]))
     c.append(F("f17", "#[TRACE]\npub fn f17(x: u32) -> u32 { HERE x + 17 }", [("4", 'format!("{:?}", M::f17(4))')], attr='name = "custom name é"', lit="custom name é"))
+    c.append(F("fb", "#[TRACE]\npub fn fb(x: u32) -> u32 { HERE x + 19 }", [("4", 'format!("{:?}", M::fb(4))')], attr='name = "GET /u/{x} {{y}}"', lit="GET /u/{x} {{y}}"))
     c.append(F("f18", "#[TRACE]\npub fn f18(x: u32) -> u32 { HERE x + 18 }", [("4", 'format!("{:?}", M::f18(4))')], attr="short_name = true", lit="f18"))
     c.append(F("f19", "#[TRACE]\npub fn f19(x: u32, s: &str) -> usize { HERE rt::log(\"f19\"); s.len() + x as usize }",
                [("3,'hé'", 'format!("{:?}", M::f19(x, s))'), ("0,''", 'format!("{:?}", M::f19(x, s))')],
@@ -214,7 +215,9 @@ def gen_function(r, i):
     if mode == 0:
         # the configured name is taken as it is written, blanks at its ends and inside included
         pads = ["", "", "", " ", "  ", "\\t"]
-        nm = "%sn-%d%s%s" % (r.choice(pads), i, r.choice(["", "", " x", "  y"]), r.choice(pads))
+        # ... and so are braces: a name is not a format string, whatever the arguments are called
+        braces = ["", "", "", " {a}", " {{a}}", " {s}/{b}", " {{}}", " {a:?}", "{{{a}}}"]
+        nm = "%sn-%d%s%s%s" % (r.choice(pads), i, r.choice(["", "", " x", "  y"]), r.choice(braces), r.choice(pads))
         attr = 'name = "%s"' % nm
         lit = nm.replace("\\t", "\t")
     elif mode == 1:
